@@ -26,6 +26,7 @@ C_FUNCS = [
     ("trees.c", "check_positions"),
     ("trees.c", "check_quantiles"),
     ("trees.c", "check_node_bin_map"),
+    ("trees.c", "check_coalescence_rate_time_windows"),
     ("trees.c", "tsk_tree_seek"),
     ("trees.c", "tsk_tree_seek_index"),
     ("tables.c", "tsk_table_collection_check_tree_integrity"),
